@@ -1,6 +1,26 @@
 From Coq Require Import ZArith NArith List Bool Lia Arith ZifyBool ZifyN ZifyNat.
 Import ListNotations.
 Require Import SR.Base.Res SR.Spec.JsonDoc SR.Gen.SchemaMakerParams SR.Model.SchemaMaker.
+(* The definitions of this development that occur in theorem statements (Props/) live in Spec/SchemaMakerWitness.v (audit item G1).
+   The abbreviations keep the qualified names SchemaMakerP.name of other files resolving; they are parsing-only aliases. *)
+Require Export SR.Spec.SchemaMakerWitness.
+Notation mk_atom := SR.Spec.SchemaMakerWitness.mk_atom (only parsing).
+Notation mk_ref := SR.Spec.SchemaMakerWitness.mk_ref (only parsing).
+Notation mk_obj := SR.Spec.SchemaMakerWitness.mk_obj (only parsing).
+Notation mk_arr := SR.Spec.SchemaMakerWitness.mk_arr (only parsing).
+Notation mk_one := SR.Spec.SchemaMakerWitness.mk_one (only parsing).
+Notation nX := SR.Spec.SchemaMakerWitness.nX (only parsing).
+Notation nY := SR.Spec.SchemaMakerWitness.nY (only parsing).
+Notation ka := SR.Spec.SchemaMakerWitness.ka (only parsing).
+Notation kt := SR.Spec.SchemaMakerWitness.kt (only parsing).
+Notation kr := SR.Spec.SchemaMakerWitness.kr (only parsing).
+Notation kv := SR.Spec.SchemaMakerWitness.kv (only parsing).
+Notation kw := SR.Spec.SchemaMakerWitness.kw (only parsing).
+Notation witness_shadow := SR.Spec.SchemaMakerWitness.witness_shadow (only parsing).
+Notation witness_title_only := SR.Spec.SchemaMakerWitness.witness_title_only (only parsing).
+Notation example_doc := SR.Spec.SchemaMakerWitness.example_doc (only parsing).
+Notation example_dangling := SR.Spec.SchemaMakerWitness.example_dangling (only parsing).
+Notation example_instance := SR.Spec.SchemaMakerWitness.example_instance (only parsing).
 
 (* ------------------------------------------------------------------ equality tests *)
 
@@ -1108,56 +1128,6 @@ Proof.
 Qed.
 
 (* ------------------------------------------------------------------ witnesses and examples *)
-
-Definition mk_atom (ty : str) (anchor title : option str) : js :=
-  Node (Scal None (Some ty) anchor title None []) OANone OJNone OPNone.
-Definition mk_ref (name : str) (anchor : option str) : js :=
-  Node (Scal (Some (hash :: name)) None anchor None None []) OANone OJNone OPNone.
-Definition mk_obj (anchor : option str) (ps : props) : js :=
-  Node (Scal None (Some s_object) anchor None None []) OANone OJNone (OPSome ps).
-Definition mk_arr (anchor : option str) (mido : option str) (x : js) : js :=
-  Node (Scal None (Some s_array) anchor None mido []) OANone (OJSome x) OPNone.
-Definition mk_one (l : alts) : js :=
-  Node (Scal None None None None None []) (OASome l) OJNone OPNone.
-
-Definition nX : str := [88]%N.
-Definition nY : str := [89]%N.
-Definition ka : str := [97]%N.
-Definition kt : str := [116]%N.
-Definition kr : str := [114]%N.
-Definition kv : str := [118]%N.
-Definition kw : str := [119]%N.
-
-(* {a: integer $anchor X, t: string title X, r: $ref #X}: the title captures the reference *)
-Definition witness_shadow : js :=
-  mk_obj None (PCons ka (mk_atom s_integer (Some nX) None)
-              (PCons kt (mk_atom s_string None (Some nX))
-              (PCons kr (mk_ref nX None) PNil))).
-
-(* {t: string title X, r: $ref #X}: no anchor X anywhere, yet it loads *)
-Definition witness_title_only : js :=
-  mk_obj None (PCons kt (mk_atom s_string None (Some nX)) (PCons kr (mk_ref nX None) PNil)).
-
-(* forward and backward references, an array with maxItemsDependsOn, a oneOf:
-   {r: $ref #Y, a: integer $anchor X, v: array of $ref #X depending on #X, w: oneOf[string, object $anchor Y {a: null}]} *)
-Definition example_doc : js :=
-  mk_obj None
-    (PCons kr (mk_ref nY None)
-    (PCons ka (mk_atom s_integer (Some nX) None)
-    (PCons kv (mk_arr None (Some (hash :: nX)) (mk_ref nX None))
-    (PCons kw (mk_one (ACons (mk_atom s_string None None)
-                      (ACons (mk_obj (Some nY) (PCons ka (mk_atom s_null None None) PNil)) ANil)))
-     PNil)))).
-
-Definition example_dangling : js :=
-  mk_obj None (PCons ka (mk_atom s_integer (Some nX) None) (PCons kr (mk_ref nY None) PNil)).
-
-(* {r: {a: 1}, a: 5, v: [7, 8], w: 0}: r is an object through the reference to Y *)
-Definition example_instance : jv :=
-  JDict (JDCons kr (JDict (JDCons ka JNull JDNil))
-        (JDCons ka (JInt 5)
-        (JDCons kv (JList (JLCons (JInt 7) (JLCons (JInt 8) JLNil)))
-        (JDCons kw (JInt 0) JDNil)))).
 
 Definition refs_unguarded : Prop :=
   forall d s, wf d = true -> uniq_anchors d = true -> load d = Ok s -> refs_resolved d s = true.
